@@ -3,6 +3,7 @@ import UF.Compose2.ParsePattern
 import UF.Compose2.RegexShortcutSound
 import UF.Props.C05
 import UF.Props.C03
+import UF.Model.RequestNew
 /-
   C05 for mask rules, HYPOTHESIS-FREE (integration group I2).
 
@@ -18,10 +19,14 @@ namespace UF.C05
 open UF Bytes Re UF.I2
 
 /-- Masks, at the level of the compiled matcher: for EVERY ASCII mask pattern `p` (as stored in the
-    rule), with or without `$match-case`, and EVERY subject `u` (any bytes), if the compiled pattern
+    rule), with or without `$match-case`, and EVERY ASCII subject `u`, if the compiled pattern
     accepts `u` then the lower-cased subject contains the rule's shortcut
-    (`loadShortcut (findShortcut p)`: the longest separator-free run, lower-cased, if longer than 1). -/
+    (`loadShortcut (findShortcut p)`: the longest separator-free run, lower-cased, if longer than 1).
+    The hypothesis `hu` is not needed by the proof (the byte-level model satisfies the statement for
+    all bytes); it delimits the domain on which `compiledAccepts`/`toLower` ARE Go's rune-based
+    `regexp`/`strings.ToLower` (review TOP 7: `||ex.org/a^b` vs `http://ex.org/aéb`; `ſ`/`K` folding). -/
 theorem c05_mask_full (p : Bytes) (mc : Bool) (u w : Bytes) (hp : ∀ b ∈ p, b < 128)
+    (_hu : ∀ b ∈ u, b < 128)
     (hre : UF.isRegexPattern p = false) (hf : findShortcut p = some w)
     (h : Mask.compiledAccepts p mc u = true) :
     hasSub (toLower u) (loadShortcut w) = true := by
@@ -32,18 +37,20 @@ theorem c05_mask_full (p : Bytes) (mc : Bool) (u w : Bytes) (hp : ∀ b ∈ p, b
 theorem c05_mask_full_total (p : Bytes) (mc : Bool) (hp : ∀ b ∈ p, b < 128)
     (hre : UF.isRegexPattern p = false) :
     ∃ w, findShortcut p = some w ∧
-      ∀ u, Mask.compiledAccepts p mc u = true → hasSub (toLower u) (loadShortcut w) = true := by
+      ∀ u, (∀ b ∈ u, b < 128) → Mask.compiledAccepts p mc u = true →
+        hasSub (toLower u) (loadShortcut w) = true := by
   obtain ⟨w, hw, _⟩ := findShortcut_inv p
-  exact ⟨w, hw, fun u h => c05_mask_full p mc u w hp hre hw h⟩
+  exact ⟨w, hw, fun u hu h => c05_mask_full p mc u w hp hu hre hw h⟩
 
-/-- Against the DOCUMENTED mask language (through `c03`): every subject without a line feed that the
-    mask language of `p` accepts contains the shortcut. -/
+/-- Against the DOCUMENTED mask language (through `c03`): every ASCII subject without a line feed that
+    the mask language of `p` accepts contains the shortcut. -/
 theorem c05_mask_spec (p : Bytes) (mc : Bool) (u w : Bytes) (hp : ∀ b ∈ p, b < 128)
+    (hu : ∀ b ∈ u, b < 128)
     (hre : UF.isRegexPattern p = false) (hn : Mask.NoNL u) (hf : findShortcut p = some w)
     (h : MaskSpec.maskAccepts (MaskSpec.tokenize p) mc u = true) :
     hasSub (toLower u) (loadShortcut w) = true := by
-  apply c05_mask_full p mc u w hp hre hf
-  rw [C03.c03_stored p mc u hp hre hn]
+  apply c05_mask_full p mc u w hp hu hre hf
+  rw [C03.c03_stored p mc u hp hu hre hn]
   exact h
 
 /-- Through `modelPat`: whenever the composed pattern model answers `true` on a mask pattern, the
@@ -58,7 +65,7 @@ theorem c05_mask_modelPat (p : Bytes) (mc : Bool) (u w : Bytes) (hre : UF.isRege
   split at h
   · rename_i hd
     simp only [Bool.and_eq_true] at hd
-    exact c05_mask_full p mc u w ((isAscii_iff p).1 hd.1.1) hre hf hc
+    exact c05_mask_full p mc u w ((isAscii_iff p).1 hd.1.1) ((isAscii_iff u).1 hd.1.2) hre hf hc
   · cases h
 
 /-- C05 at the level of `Match` for mask rules, with the pattern oracle instantiated by the models and
@@ -94,12 +101,12 @@ theorem c05_full (ext : Ext) (r : NetRule) (q : Request) (w : Bytes)
 
 /-- The same for `/regex/` rules over `modelPat` (group A's `c05_regex_rule` with its pattern
     hypothesis discharged for the composed oracle): the candidates `parts` of the textual heuristics
-    are arbitrary, the tree is the model's parse of the text between the slashes. -/
+    are arbitrary, the tree is the model's parse of the text between the slashes.  No hypothesis about
+    a `(?i)` at the start of a `$match-case` rule's own text is needed (review TOP 14): then `parseCore`
+    yields no tree, nothing is required and no candidate is accepted (`parseCore_of_hasPrefix_ci`). -/
 theorem c05_full_regex (ext : Ext) (r : NetRule) (q : Request) (parts : List Bytes)
     (hre : UF.isRegexPattern r.pattern = true)
     (hshort : r.shortcut = loadShortcut (findRegexpShortcut parts (parseCore ((r.pattern.drop 1).dropLast))))
-    (hci : r.isEnabled Facts.OptionMatchCase = true →
-      hasPrefix ((r.pattern.drop 1).dropLast) ciPrefix = false)
     (hlower : q.urlLower = toLower q.url)
     (hhost : q.isHostnameRequest = true → hasSub q.url q.hostname = true) :
     r.matches (withModelPat ext) q = ({ r with shortcut := [] } : NetRule).matches (withModelPat ext) q := by
@@ -114,7 +121,7 @@ theorem c05_full_regex (ext : Ext) (r : NetRule) (q : Request) (parts : List Byt
     subst ht
     obtain ⟨r0, hparse, hs, _⟩ := modelPat_regex_some hre hm
     unfold regexRuleText at hparse
-    generalize (r.pattern.drop 1).dropLast = inner at hparse hci ⊢
+    generalize (r.pattern.drop 1).dropLast = inner at hparse ⊢
     cases hmc : r.isEnabled Facts.OptionMatchCase with
     | false =>
       rw [hmc] at hparse
@@ -129,12 +136,21 @@ theorem c05_full_regex (ext : Ext) (r : NetRule) (q : Request) (parts : List Byt
         intro t' ht'; cases ht'; exact litsCovered_foldCase t
     | true =>
       rw [hmc] at hparse
-      simp only [if_true, parseRE, hci hmc, Bool.false_eq_true, if_false] at hparse
-      refine ⟨r0, ?_, hs.symm⟩
-      intro t' ht'
-      rw [hparse] at ht'
-      cases ht'
-      exact litsCovered_refl r0
+      simp only [if_true] at hparse
+      cases hci : hasPrefix inner ciPrefix with
+      | true =>
+        -- the text itself starts with `(?i)`: `parseCore` has no flag groups, the tree is `none`
+        refine ⟨r0, ?_, hs.symm⟩
+        intro t' ht'
+        rw [parseCore_of_hasPrefix_ci hci] at ht'
+        cases ht'
+      | false =>
+        simp only [parseRE, hci, Bool.false_eq_true, if_false] at hparse
+        refine ⟨r0, ?_, hs.symm⟩
+        intro t' ht'
+        rw [hparse] at ht'
+        cases ht'
+        exact litsCovered_refl r0
 
 /-- C05 from the rule TEXT for mask rules — no oracle and no hypothesis about the rule record: whatever
     `NewNetworkRule` accepts with a pattern that is not a `/regex/` matches the same requests with and
@@ -158,15 +174,13 @@ theorem c05_text_full_regex (px : E.ParseExt) (t : Bytes) (id : Int) (r : NetRul
     (hre : UF.isRegexPattern r.pattern = true)
     (horacle : ∃ parts, px.regexpShortcut r.pattern =
       findRegexpShortcut parts (parseCore ((r.pattern.drop 1).dropLast)))
-    (hci : r.isEnabled Facts.OptionMatchCase = true →
-      hasPrefix ((r.pattern.drop 1).dropLast) ciPrefix = false)
     (hlower : q.urlLower = toLower q.url)
     (hhost : q.isHostnameRequest = true → hasSub q.url q.hostname = true) :
     r.matches (withModelPat px.ext) q = ({ r with shortcut := [] } : NetRule).matches (withModelPat px.ext) q := by
   obtain ⟨_, _, _, _, _, _, hsc⟩ := parseNetRule_pattern h
   obtain ⟨parts, hparts⟩ := horacle
   rcases hsc with ⟨_, hs⟩ | ⟨hre', _⟩
-  · exact c05_full_regex px.ext r q parts hre (by rw [hs, hparts]) hci hlower hhost
+  · exact c05_full_regex px.ext r q parts hre (by rw [hs, hparts]) hlower hhost
   · rw [hre] at hre'; cases hre'
 
 /-- `/regex/` rules, from the TEXT: the shortcut computed by the text-level model of
@@ -296,5 +310,47 @@ example : itemsReq (mergeItems [.lit (lit "a") false, .lit (lit "b") false, .oth
 example : altTopReq [[.lit (lit "foo") false], [.lit (lit "barbaz") false]] = [] := by decide
 example : altTopReq [[.lit (lit "foo") false], [.lit (lit "foobar") false]] = [lit "foo"] := by decide
 example : altTopReq [[.lit (lit "A") false], [.lit (lit "a") false]] = [lit "a"] := by decide
+
+/-! ### The hypothesis `hlower` cannot be dropped for hostname requests (review TOP 3)
+
+  `NewRequest` lower-cases the URL itself (C17 `lower_capped`), so `hlower : q.urlLower = toLower q.url`
+  is a theorem for URL requests.  `FillRequestForHostname` does NOT: it stores
+  `URLLowerCase = "http://" + hostname` unchanged (rules/request.go), and `DNSEngine.MatchRequest`
+  probes its tables with the raw name.  For the hostname `EXAMPLE.org` and the rule `||example.org^`
+  the compiled pattern (`(?i)`) accepts the target, but the shortcut test `strings.Contains(URLLowerCase,
+  "example.org")` rejects -- so "the result is the same with the shortcut test removed" FAILS on that
+  request, and the statements above hold for hostname requests only under the contract of DESIGN.md §6:
+  hostnames given to `NewRequestForHostname` / `DNSRequest` are lower-case (the function documents that
+  validation is the caller's job; DNS names are case-insensitive).  Mixed-case hostnames are therefore
+  outside the domain of C02/C05/C17; no generator produces them as inputs of compared ops and the
+  driver answers `ood` where an op can receive one. -/
+
+private def lcExt : Ext :=
+  { psl := fun _ => (lit "org", true), parseAddr := fun _ => none, parsePrefix := fun _ => none,
+    pat := fun _ _ _ => false }
+
+/-- The explicit dependency on lower-case hostnames: on the request `FillRequestForHostname` builds
+    for `EXAMPLE.org`, the rule `||example.org^` (complete parser model, shortcut `example.org`) has
+    `urlLower ≠ toLower url`, its pattern ACCEPTS, its shortcut test REJECTS, and `Match` differs from
+    `Match` without the shortcut. -/
+theorem c05_hostname_lowercase_needed :
+    (match parseNetRuleM lcExt (lit "||example.org^") 1,
+           H.newRequestForHostname lcExt (lit "EXAMPLE.org") with
+     | .ok r, .ok q =>
+       r.shortcut == lit "example.org" && q.isHostnameRequest && q.url == lit "http://EXAMPLE.org" &&
+       q.urlLower != toLower q.url &&
+       matchPattern (withModelPat lcExt) r q && !matchShortcut r q &&
+       !r.matches (withModelPat lcExt) q &&
+       ({ r with shortcut := [] } : NetRule).matches (withModelPat lcExt) q
+     | _, _ => false) = true := by decide +kernel
+
+/-- With the lower-case name the hypothesis holds and the two agree. -/
+example :
+    (match parseNetRuleM lcExt (lit "||example.org^") 1,
+           H.newRequestForHostname lcExt (lit "example.org") with
+     | .ok r, .ok q =>
+       q.urlLower == toLower q.url && r.matches (withModelPat lcExt) q &&
+       ({ r with shortcut := [] } : NetRule).matches (withModelPat lcExt) q
+     | _, _ => false) = true := by decide +kernel
 
 end UF.C05
